@@ -23,7 +23,7 @@ CHECKS = {
         "model_checking",
         "exhaustive lattice enumeration of the real TimeKeeper/normalize_period against integer-second arithmetic and a reference grammar",
         "Every (start, duration, dt, direction, reference) on a one-second lattice: Nsteps, step<->time conversions at every step incl. negative, "
-        "the running clock after every update(), CF values/units; every spelling of each duration in a bounded set and every string over an "
+        "the running clock after every update() and after reset(), times given as ISO string / numpy datetime64 / datetime instance, CF values/units; every spelling of each duration in a bounded set and every string over an "
         "11-letter alphabet up to length 4/5 decided by a hand-written grammar. Exhaustive on the lattice, silent off it.",
         "numpy datetime64 arithmetic trusted; times on a one-second lattice.",
         "DESIGN.md §2 C13",
